@@ -337,15 +337,30 @@ func isNumeral(s string) bool {
 // floatToInt: truncation when finite and in range, otherwise an unconstrained integer
 // (Go: implementation-defined).
 func (e *Exec) floatToInt(a Value, bits int, unsigned bool) string {
-	r := e.freshConst("f2i", "Int")
+	// the conversion is a (platform-defined, deterministic) function of the float: an uninterpreted
+	// function that equals truncation whenever the value is finite and in range
+	fn := fmt.Sprintf("f2i%d", bits)
+	if unsigned {
+		fn = fmt.Sprintf("f2u%d", bits)
+	}
+	r := "(" + fn + " " + fk(a) + " " + fv(a) + ")"
 	lo, hi := "(- "+pow2(bits-1)+".0)", pow2(bits-1)+".0"
 	if unsigned {
 		lo, hi = "(- 1.0)", pow2(bits)+".0"
 	}
-	e.axiom(fmt.Sprintf("(=> (and %s (< %s %s) (< %s %s)) (= %s (trunc %s)))", fIsFin(a), lo, fv(a), fv(a), hi, r, fv(a)))
+	if e.quiet > 0 || e.discovery {
+		return r
+	}
+	key := "f2i:" + r
+	if e.fl.seenR[key] {
+		return r
+	}
+	e.fl.seenR[key] = true
+	cond := e.defineBool(fmt.Sprintf("(and %s (< %s %s) (< %s %s))", fIsFin(a), lo, fv(a), fv(a), hi))
+	e.axiom(fmt.Sprintf("(=> %s (= %s (trunc %s)))", cond, r, fv(a)))
 	// consequences of truncation stated explicitly (mixed int/real reasoning is slow otherwise)
-	e.axiom(fmt.Sprintf("(=> (and %s (< %s %s) (< %s %s) (>= %s 0.0)) (and (<= (to_real %s) %s) (< %s (+ (to_real %s) 1.0)) (>= %s 0)))", fIsFin(a), lo, fv(a), fv(a), hi, fv(a), r, fv(a), fv(a), r, r))
-	e.axiom(fmt.Sprintf("(=> (and %s (< %s %s) (< %s %s) (<= %s 0.0)) (and (>= (to_real %s) %s) (> %s (- (to_real %s) 1.0)) (<= %s 0)))", fIsFin(a), lo, fv(a), fv(a), hi, fv(a), r, fv(a), fv(a), r, r))
+	e.axiom(fmt.Sprintf("(=> (and %s (>= %s 0.0)) (and (<= (to_real %s) %s) (< %s (+ (to_real %s) 1.0)) (>= %s 0)))", cond, fv(a), r, fv(a), fv(a), r, r))
+	e.axiom(fmt.Sprintf("(=> (and %s (<= %s 0.0)) (and (>= (to_real %s) %s) (> %s (- (to_real %s) 1.0)) (<= %s 0)))", cond, fv(a), r, fv(a), fv(a), r, r))
 	return r
 }
 
